@@ -317,6 +317,24 @@ fn corpus(thorough: bool) -> Vec<String> {
             set.insert(format!("{}{}", sep, a));
         }
     }
+    // characters written as percent-escapes inside the timestamp text itself (what a value decoded once too often, or
+    // once too rarely, looks like): each character of five bases, and the last two digits together
+    for a in firsts {
+        let chars: Vec<char> = a.chars().collect();
+        for i in 0..chars.len() {
+            let mut t: String = chars[..i].iter().collect();
+            t.push_str(&format!("%{:02X}", chars[i] as u32));
+            t.extend(chars[i + 1..].iter());
+            set.insert(t);
+        }
+        set.insert(format!("{}%", a));
+        set.insert(format!("{}%4", a));
+        set.insert(format!("{}%5A", a.trim_end_matches('Z')));
+    }
+    set.insert("20150830T1236%30%30Z".to_string());
+    set.insert("20150830T133600%2B0100".to_string());
+    set.insert("20150830T133600%2b0100".to_string());
+    set.insert("2015%2D08%2D30T12%3A36%3A00Z".to_string());
     set.into_iter().collect()
 }
 
@@ -472,7 +490,7 @@ pub fn run(ctx: &Ctx) -> Report {
 
     Report {
         stats: st,
-        rule: "every value 00..99 of month, day, hour, minute, second, offset hour and offset minute (basic and extended form); 9 years x boundary instants; every day 00..32 of every month of 2015, 2016, 1900, 2000 in two forms; the full product of boundary values of month/day (10 pairs) x hour (5) x minute (5) x second (5, incl. 60 and 61) x 10 zones; all 2^5 separator combinations; every offset hh(00..99) x mm(00..99) x sign (basic; extended for all in thorough); 12 zone designators; all 2^5 combinations of blank-padded / one-digit fields in four layouts; fractions of 0..12 and 13..10000 digits with '.' and ','; every string at edit distance 1 (insert/delete/substitute over 23 characters incl. 3 non-ASCII) from six bases (thorough: also every pair of substitutions and substitution+insertion on two bases); five well-formed timestamps followed by one of 10 separators (',', ', ', blank, ';', '/', tab, none, ...) and a second timestamp — itself again once or twice, or another one; every ordered pair over ~70 related strings (six well-formed timestamps and their look-alikes: separators removed / added, zone dropped, case, blanks, one digit changed) parsed back to back on one thread; each string is evaluated through the unstable API (value and string-to-sign line compared with the reference parser) and end to end on the header carrier (bare and space-padded) and the query carrier; two or three validations whose requests differ only in the timestamp are multiplexed on one thread against a provider that is Pending first, in every order of polls (each verified against its own timestamp line). states = distinct reference instants + reject class; non-trivial = distinct strings".into(),
+        rule: "every value 00..99 of month, day, hour, minute, second, offset hour and offset minute (basic and extended form); 9 years x boundary instants; every day 00..32 of every month of 2015, 2016, 1900, 2000 in two forms; the full product of boundary values of month/day (10 pairs) x hour (5) x minute (5) x second (5, incl. 60 and 61) x 10 zones; all 2^5 separator combinations; every offset hh(00..99) x mm(00..99) x sign (basic; extended for all in thorough); 12 zone designators; all 2^5 combinations of blank-padded / one-digit fields in four layouts; fractions of 0..12 and 13..10000 digits with '.' and ','; every string at edit distance 1 (insert/delete/substitute over 23 characters incl. 3 non-ASCII) from six bases (thorough: also every pair of substitutions and substitution+insertion on two bases); five well-formed timestamps followed by one of 10 separators (',', ', ', blank, ';', '/', tab, none, ...) and a second timestamp — itself again once or twice, or another one; the same five with each character written as a percent-escape (the text of a value decoded once too rarely — on the query carrier it arrives as %25XX) and with truncated escapes appended; every ordered pair over ~70 related strings (six well-formed timestamps and their look-alikes: separators removed / added, zone dropped, case, blanks, one digit changed) parsed back to back on one thread; each string is evaluated through the unstable API (value and string-to-sign line compared with the reference parser) and end to end on the header carrier (bare and space-padded) and the query carrier; two or three validations whose requests differ only in the timestamp are multiplexed on one thread against a provider that is Pending first, in every order of polls (each verified against its own timestamp line). states = distinct reference instants + reject class; non-trivial = distinct strings".into(),
         bounds: json!({"strings": n}),
         exhaustive: true,
         assumptions: vec![
